@@ -119,6 +119,11 @@ func (r *Runner) Step(line string) {
 			}
 			return
 		}
+		if r.g1pc == "finished" || r.finalBegun {
+			r.fail("oracle", "an upload started after the final sync began was not refused with UNAVAILABLE", line+": space was allocated")
+			o.park.Resume(nil)
+			return
+		}
 		o.stage = m // remember "ok <slot> <off>"
 		if strings.HasPrefix(m, "ok ") {
 			m = "ok"
@@ -300,8 +305,18 @@ func (r *Runner) Step(line string) {
 		}
 		r.record(line, "ok", r.model(fmt.Sprintf("g1.completed %d", arg)))
 		if second {
-			e, ok := r.expect(r.St.G1Ev, "datasync")
+			e, ok := r.expect(r.St.G1Ev, "datasync", "sw-begin")
 			if !ok {
+				return
+			}
+			if e.Kind == "sw-begin" {
+				// no second sync although a shutdown was requested
+				if r.Model != nil {
+					r.fail("disagreement", "no final data sync on shutdown", "next gate: "+e.Kind)
+					return
+				}
+				r.g1pc, r.g1park = "want", nil
+				r.swBegun(1, e)
 				return
 			}
 			r.g1park, r.g1pc, r.g1final, r.finalBegun = &e, "started", true, true
